@@ -217,6 +217,20 @@ def r15(ctx):
                 if x.calls(r'Gitignore::path$'):
                     idem = True
             idem = idem and bool(pu.calls(r'Iterator::any$|Iterator>::any$|::contains$|Iterator::find$|Iterator::position$'))
+        # ... and to stop multiplying: a directory is read once per stack it is reached with, so the stack that crosses a link must be cut to a bounded
+        # part (the global rules + the rules of the link's own location), not handed on whole from link to link
+        CUT = r'Index<I>>::index$|Vec::<.*>::(truncate|split_off|drain|retain)$|Iterator::(skip|filter|take|skip_while)$|Iterator>::(skip|filter|take|skip_while)$|slice::<impl \[T\]>::(split_at|get)$'
+        cutters = []
+        for a in stack_args:
+            for c in backslice(vl, [a]).calls:
+                if c.matches(r'^walk::IgnoreStack::\w+$') and not c.matches(r'::(clone|push|id|matches)$'):
+                    cb = lib.body(c.path)
+                    if cb is not None and cb.calls(CUT):
+                        cutters.append(c)
+        ctx.check(bool(cutters), rule, vl.path + '|stack-cut-at-links', vp[0].where(), 'the stack handed to a link target is cut by %s: it does not accumulate from link to link' % ', '.join(sorted({c.path.rsplit('::', 1)[-1] for c in cutters})),
+                  'a visit is recorded per (path, ignore stack) and visit_link hands its whole stack on to the target: where directories that contain ignore files link to each other, every route '
+                  'makes a different stack (the ordered list of the ignore-file directories passed so far), so a directory is read once per ordered subset of the others - 8 directories with 56 links '
+                  'do not finish in 9 minutes (0.02 s with --no-ignore), a dependency graph of n packages takes 2^n visits, and every file is handed to the consumer once per visit')
         ctx.check(idem, rule, 'walk::IgnoreStack::push|idempotent', (pu.where() if pu else vl.where()), 'push() leaves the stack unchanged when it already holds the ignore files of the directory',
                   'the visited record is keyed by the ignore stack, but push() appends the ignore files of a directory every time it is entered: on a cycle of links (`d/self -> .`) each round makes a new, '
                   'longer stack, no visit is ever recognised as a repetition, and the walk does not end')
@@ -768,6 +782,24 @@ def guarded_by_call(b, target_bb, rx):
     return None
 
 
+def guard_side(b, target_bb, rx):
+    """True / False: target_bb is dominated by the edge taken when a call matching rx returned true / false; None: not guarded by it"""
+    for d in b.dominators()[target_bb]:
+        t = b.blocks[d]['term']
+        if t['k'] != 'switch':
+            continue
+        sl = backslice(b, [t['op']])
+        if not [c for c in sl.calls if c.matches(rx)]:
+            continue
+        tt, ft = switch_targets_bool(t)
+        if count_nots(b, sl) % 2:
+            tt, ft = ft, tt
+        for side, val in ((tt, True), (ft, False)):
+            if side is not None and b.dominates(side, target_bb) and not (b.dominates(side, d)):
+                return val
+    return None
+
+
 def r3(ctx):
     rule = 'C09.R3'
     lib = ctx.lib
@@ -1029,6 +1061,34 @@ def r5(ctx):
                       'a pattern counts as absolute as soon as it CAN match a path that begins with the separator: that is also true of relative globs whose first component may be empty or whose first '
                       'token is a negated class - `*/cache/**`, `*/*`, `?(a)/x`, `[!a]*` - so they are no longer anchored at the working directory: `--exclude "*/cache/**"` excludes nothing, '
                       '`--path "*/cache/*"` selects nothing and `remove --keep-path "*/orig/**"` protects nothing')
+            # ... and the candidate of many separators says "spans directories" only about an expression the user wrote as a regex: a relative GLOB whose
+            # first component may be empty and that goes on with `**` (`*/**` -> `[^/]*/.*`) accepts it as well
+            many = []
+            for x, c in pm_:
+                for a in c.args[1:]:
+                    sl_ = backslice(x, [a])
+                    rep = [st for blk in x.blocks for st in blk['stmts'] if st['p'][0] in sl_.locals and
+                           (st['rv']['k'] == 'repeat' or (st['rv']['k'] == 'agg' and st['rv'].get('ak') == 'array' and len(st['rv']['ops']) > 1))]
+                    # (a constant array is promoted: `&[u8; 16]`)
+                    prom = [m for kk in sl_.consts for m in re.finditer(r'\[u8; (\d+)\]', str(kk)) if int(m.group(1)) > 1]
+                    if rep or prom:
+                        many.append((x, c))
+            bad_many = None
+            def regex_side(x, bb):
+                return guard_side(x, bb, r'Pattern::is_glob$') is False or guard_side(x, bb, r'Pattern::is_regex$') is True
+            for x, c in many:
+                ok_ = regex_side(x, c.bb)
+                if not ok_ and x.path != ib.path:
+                    # guarded where is_absolute calls the helper
+                    ks = ib.calls('^' + re.escape(x.path) + '$')
+                    ok_ = bool(ks) and all(regex_side(ib, k.bb) for k in ks)
+                if not ok_:
+                    bad_many = c
+            ctx.check(bad_many is None, rule, ib.path + '|many-separators-is-for-regexes', (bad_many.where() if bad_many else ib.where()),
+                      'the many-separators candidate ("starts with something that spans directories") is asked about regexes only, %d site(s) guarded by the kind of the pattern' % len(many),
+                      'a pattern counts as absolute when it can match a path that begins with many separators, whatever kind of pattern it is: that is also true of the relative GLOBS whose first '
+                      'component may be empty and that go on with `**` - `*/**`, `*/**/*.jpg`, `?(sub)/**` - they are matched against the whole absolute path, whose first component is empty: '
+                      '`--path "*/**"` selects everything, `--exclude "*/**"` excludes everything and `remove --path "*/**"` deletes files outside the working directory')
         if lit:
             # the literal is made of exactly the text the paths are matched as (to_string_lossy): no character substitution on the way
             lsl = backslice(ap, [lit[0].args[0]])
